@@ -28,14 +28,15 @@ type Case struct {
 	Realm string `json:"realm"` // its realm
 
 	// ticket, clear part
-	TktSName string `json:"tkt_sname"`
-	TktRealm string `json:"tkt_realm"`
-	TktKVNO  int    `json:"tkt_kvno"`          // -1 = kvno absent
-	KtWide   bool   `json:"kt_wide,omitempty"` // the keytab also holds a newer key of the service under kvno 65539 (same low octet as kvno 3)
-	TktEType int32  `json:"tkt_etype"`
-	TktKey   string `json:"tkt_key"` // name of the key that encrypts the ticket: svc old e2 otherrealm alt host unrelated
-	TktUsage uint32 `json:"tkt_usage"`
-	TktMut   string `json:"tkt_mut,omitempty"` // "", "flip:<bit>", "trunc:<len>"
+	TktSName  string `json:"tkt_sname"`
+	TktRealm  string `json:"tkt_realm"`
+	TktKVNO   int    `json:"tkt_kvno"`                // -1 = kvno absent
+	SessEType int32  `json:"session_etype,omitempty"` // etype of the session key sealed in the ticket (0 = that of the ticket's own encryption); the authenticator is sealed under the session key
+	KtWide    bool   `json:"kt_wide,omitempty"`       // the keytab also holds a newer key of the service under kvno 65539 (same low octet as kvno 3)
+	TktEType  int32  `json:"tkt_etype"`
+	TktKey    string `json:"tkt_key"` // name of the key that encrypts the ticket: svc old e2 otherrealm alt host unrelated
+	TktUsage  uint32 `json:"tkt_usage"`
+	TktMut    string `json:"tkt_mut,omitempty"` // "", "flip:<bit>", "trunc:<len>"
 	// ticket, sealed part
 	Flags    uint32   `json:"flags"`
 	CName    string   `json:"cname"`
@@ -262,6 +263,9 @@ func (c *Case) Expect() Expectation {
 	if c.DecodePAC && c.PAC == "badsig" {
 		return rej("pac-signature")
 	}
+	if c.DecodePAC && strings.HasPrefix(c.PAC, "broken-") {
+		return rej("pac-unparseable")
+	}
 	return Expectation{Accept: true, Either: either}
 }
 
@@ -385,7 +389,11 @@ func (c *Case) Mint(samplePAC []byte) (*Minted, error) {
 		}
 		return t.Add(time.Duration(off) * time.Millisecond).UTC()
 	}
-	sess := mint.Key{EType: c.TktEType, Value: c.K("session", c.TktEType)}
+	set := c.TktEType
+	if c.SessEType != 0 {
+		set = c.SessEType
+	}
+	sess := mint.Key{EType: set, Value: c.K("session", set)}
 	t := &mint.TicketSpec{
 		Realm: c.TktRealm, SName: c.TktSName, SNameType: 2,
 		EncKey: mint.Key{EType: c.TktEType, Value: c.K(c.TktKey, c.TktEType)}, Usage: c.TktUsage,
@@ -414,6 +422,22 @@ func (c *Case) Mint(samplePAC []byte) (*Minted, error) {
 		if err != nil {
 			return nil, err
 		}
+		switch c.PAC {
+		case "broken-table": // cut inside the table of info buffers
+			p = p[:20]
+		case "broken-header": // cut inside the 8-octet header
+			p = p[:5]
+		case "broken-empty":
+			p = []byte{}
+		case "broken-count": // announces more buffers than the PAC could hold
+			p = append([]byte{0xff, 0xff, 0xff, 0x7f}, p[4:]...)
+		case "broken-offset": // the first buffer lies outside the PAC
+			p = append([]byte{}, p...)
+			for i := 16; i < 24; i++ {
+				p[i] = 0xff
+			}
+			p[23] = 0x7f
+		}
 		t.AuthData = []mint.AD{mint.PACAuthData(p)}
 	}
 	if c.Trailing == "forged-encpart" {
@@ -433,7 +457,7 @@ func (c *Case) Mint(samplePAC []byte) (*Minted, error) {
 	}
 	akey := sess
 	if c.AKey != "session" {
-		akey = mint.Key{EType: c.TktEType, Value: c.K("unrelated-session", c.TktEType)}
+		akey = mint.Key{EType: set, Value: c.K("unrelated-session", set)}
 	}
 	ctime := at(c.CTimeOff)
 	if c.ACName == "" {
@@ -445,7 +469,7 @@ func (c *Case) Mint(samplePAC []byte) (*Minted, error) {
 		Key: akey, Usage: c.AUsage, Conf: kgen.DetBytes(c.Seed, "c01/aconf", 16), MutateCipher: mutator(c.AMut)}
 	m := &Minted{Now: now, EndTime: t.EndTime, CName: t.CName, CRealm: c.CRealm, Session: sess}
 	if c.SubKey {
-		sk := mint.Key{EType: c.TktEType, Value: c.K("subkey", c.TktEType)}
+		sk := mint.Key{EType: set, Value: c.K("subkey", set)}
 		a.SubKey = &sk
 		m.SubKey = &sk
 	}
@@ -584,8 +608,17 @@ var Defects = map[string]func(c *Case){
 	"flag-invalid":       func(c *Case) { c.Flags |= mint.Flag(7) },
 	"pac-good":           func(c *Case) { c.PAC = "good" },
 	"pac-badsig":         func(c *Case) { c.PAC = "badsig" },
-	"subkey-seq":         func(c *Case) { c.SubKey = true; c.Seq = true },
-	"replay":             func(c *Case) { c.Replay = true },
+	// a PAC element that cannot even be parsed fails verification all the more
+	"pac-broken-table":  func(c *Case) { c.PAC = "broken-table" },
+	"pac-broken-header": func(c *Case) { c.PAC = "broken-header" },
+	"pac-broken-empty":  func(c *Case) { c.PAC = "broken-empty" },
+	"pac-broken-count":  func(c *Case) { c.PAC = "broken-count" },
+	"pac-broken-offset": func(c *Case) { c.PAC = "broken-offset" },
+	// the session key sealed in the ticket is of another etype than the service key sealing the ticket (KDCs do this routinely)
+	"session-etype-other":  func(c *Case) { c.SessEType = OtherEType(c.TktEType) },
+	"session-etype-second": func(c *Case) { c.SessEType = AbsentEType(c.TktEType) },
+	"subkey-seq":           func(c *Case) { c.SubKey = true; c.Seq = true },
+	"replay":               func(c *Case) { c.Replay = true },
 }
 
 // DefectNames is the sorted catalogue.
